@@ -150,8 +150,16 @@ impl LeastSquaresProblem<f64, Dyn, U6> for PointsToMesh<'_> {
         let mut jac = Matrix::<f64, Dyn, U6, Self::JacobianStorage>::zeros(self.points.len());
         for (i, (p, c)) in self.moved.iter().zip(self.closest.iter()).enumerate() {
             let values = match self.mode {
-                DistMode::ToPoint => point_point_jacobian(p, &c.point, &self.params),
-                DistMode::ToPlane => point_plane_jacobian(p, c, &self.params),
+                // A point lying on the surface has no direction towards its closest point and gets a
+                // row of zeros from `point_point_jacobian`. A displacement along a face leaves every
+                // point of that face on it, the parameters only those points could hold then have a
+                // column of zeros, and the solver stops where it started. At the surface the distance
+                // to the closest point and the distance to its tangent plane agree to first order, so
+                // such a point takes the row of the plane mode.
+                DistMode::ToPoint if (p - c.point).norm_squared() >= 1e-16 => {
+                    point_point_jacobian(p, &c.point, &self.params)
+                }
+                _ => point_plane_jacobian(p, c, &self.params),
             };
             copy_jacobian(&values, &mut jac, i);
         }
